@@ -73,6 +73,9 @@ type Sched struct {
 	advanced       time.Duration
 	abandoned      bool
 	detached       bool
+	// NoBranch: while set, decisions are recorded with their default choice only (no alternatives are explored
+	// there) - used for deterministic set-up phases driven by the scheduler.
+	NoBranch bool
 	// Quiescent is set when Run returned because every live managed goroutine is blocked for real (channel,
 	// timer, network) and none on a lock: not a deadlock, the environment has to move.
 	Quiescent bool
@@ -270,6 +273,7 @@ func (s *Sched) Tracef(f string, a ...any) {
 // Run releases goroutines one at a time until all managed goroutines are done, nothing can move
 // (deadlock) or the step horizon is hit. Must be called from the bubble's root goroutine.
 func (s *Sched) Run() {
+	s.Quiescent = false
 	for step := 0; ; step++ {
 		synctest.Wait()
 		s.mu.Lock()
@@ -330,6 +334,10 @@ func (s *Sched) Run() {
 				enabled[0] = id
 				break
 			}
+		}
+		if s.NoBranch {
+			enabled = enabled[:1]
+			stillEnabled = false
 		}
 		choice := 0
 		k := len(s.Points)
@@ -452,6 +460,7 @@ func RunSchedule(t *testing.T, prefix []int, maxSteps int, body func(s *Sched) (
 
 type ExploreStats struct {
 	Executions     int64
+	Decisions      int64 // scheduling decisions taken over all executions
 	MaxPoints      int
 	Deadlocks      int64
 	HorizonHits    int64
@@ -533,12 +542,18 @@ func Explore(t *testing.T, bound int, maxSteps int, deadline time.Time, body fun
 // sharded exploration: the coordinator runs the default schedule, every first-level alternative becomes
 // the root of a subtree explored completely by a worker process.
 
+// DeviationMode: when true the bound counts every departure from the default choice (delay bounding),
+// not only preemptions; used for scenarios with many goroutines, where even the non-preemptive orders are
+// too many to enumerate.
+var DeviationMode bool
+
 type ShardJob struct {
-	Scenario string `json:"scenario"`
-	Prefix   []int  `json:"prefix"`
-	Bound    int    `json:"bound"`
-	MaxSteps int    `json:"max_steps"`
-	BudgetS  int    `json:"budget_s"`
+	Deviation bool   `json:"deviation"`
+	Scenario  string `json:"scenario"`
+	Prefix    []int  `json:"prefix"`
+	Bound     int    `json:"bound"`
+	MaxSteps  int    `json:"max_steps"`
+	BudgetS   int    `json:"budget_s"`
 }
 
 type ShardViolation struct {
@@ -564,6 +579,7 @@ func exploreFrom(t *testing.T, prefix []int, bound int, maxSteps int, deadline t
 		}
 		ex := RunSchedule(t, prefix, maxSteps, body)
 		st.Executions++
+		st.Decisions += int64(len(ex.Points))
 		if len(ex.Points) > st.MaxPoints {
 			st.MaxPoints = len(ex.Points)
 		}
@@ -595,7 +611,7 @@ func exploreFrom(t *testing.T, prefix []int, bound int, maxSteps int, deadline t
 			p := ex.Points[i]
 			if i >= len(prefix) {
 				cost := used
-				if p.RunningStillEnabled {
+				if p.RunningStillEnabled || DeviationMode {
 					cost++
 				}
 				if cost <= bound {
@@ -604,7 +620,7 @@ func exploreFrom(t *testing.T, prefix []int, bound int, maxSteps int, deadline t
 					}
 				}
 			}
-			if p.RunningStillEnabled && p.Chosen != 0 {
+			if (p.RunningStillEnabled || DeviationMode) && p.Chosen != 0 {
 				used++
 			}
 		}
@@ -622,6 +638,7 @@ func ServeShards(t *testing.T, scenarios map[string]func(s *Sched) (string, stri
 			return `{"stats":{"HarnessErrors":["bad job"]}}`
 		}
 		body := scenarios[job.Scenario]
+		DeviationMode = job.Deviation
 		var out ShardResult
 		perSig := map[string]int{}
 		out.Stats = exploreFrom(t, job.Prefix, job.Bound, job.MaxSteps, time.Now().Add(time.Duration(job.BudgetS)*time.Second), body, func(ex Execution, choices []int) {
@@ -647,6 +664,7 @@ func ExploreSharded(t *testing.T, pool *Pool, scenario string, bound, maxSteps i
 	var viol []ShardViolation
 	ex := RunSchedule(t, nil, maxSteps, body)
 	total.Executions++
+	total.Decisions += int64(len(ex.Points))
 	total.MaxPoints = len(ex.Points)
 	total.Outcomes[ex.Outcome]++
 	if ex.Deadlock != "" {
@@ -666,14 +684,14 @@ func ExploreSharded(t *testing.T, pool *Pool, scenario string, bound, maxSteps i
 	}
 	for i, p := range ex.Points {
 		cost := 0
-		if p.RunningStillEnabled {
+		if p.RunningStillEnabled || DeviationMode {
 			cost = 1
 		}
 		if cost > bound {
 			continue
 		}
 		for alt := 1; alt < len(p.Enabled); alt++ {
-			b, _ := json.Marshal(ShardJob{Scenario: scenario, Prefix: append(append([]int(nil), choices[:i]...), alt), Bound: bound, MaxSteps: maxSteps, BudgetS: budget})
+			b, _ := json.Marshal(ShardJob{Deviation: DeviationMode, Scenario: scenario, Prefix: append(append([]int(nil), choices[:i]...), alt), Bound: bound, MaxSteps: maxSteps, BudgetS: budget})
 			jobs = append(jobs, string(b))
 		}
 	}
@@ -690,6 +708,7 @@ func ExploreSharded(t *testing.T, pool *Pool, scenario string, bound, maxSteps i
 			continue
 		}
 		total.Executions += sr.Stats.Executions
+		total.Decisions += sr.Stats.Decisions
 		total.Deadlocks += sr.Stats.Deadlocks
 		total.HorizonHits += sr.Stats.HorizonHits
 		total.Diverged += sr.Stats.Diverged
